@@ -250,6 +250,21 @@ def check(args):
         "known_findings_reobserved": sorted(reproduced_open),
         "harness_errors": [dict(where=h.get("where"), error=str(h.get("error"))[-600:]) for h in harness_errors[:5]],
     }
+    if tot.get("native"):
+        import glob
+        import re
+        exported = set()
+        for fn in glob.glob(os.path.join(REPO_DIR, "src", "*.c")):
+            try:
+                with open(fn, errors="replace") as f:
+                    exported.update(re.findall(r"EXPORT_SYM\s+[A-Za-z_0-9 \*]+?\b([A-Za-z_0-9]+)\s*\(", f.read()))
+            except OSError:
+                pass
+        reached = set(x.split(".", 1)[1] for x in tot["native"])
+        cov["native_entry_points_reached"] = len(reached)
+        cov["native_entry_points_exported"] = len(exported)
+        cov["native_entry_points_measure"] = ("distinct C functions called through the ctypes proxy by the worker processes of this run "
+                                             "(calls made inside forked per-case children are not counted)")
     if hasattr(m, "extra_coverage"):
         cov.update(m.extra_coverage(tot))
     ev = {"property_id": prop, "tier": tier, "seed": args.seed, "level": m.LEVEL, "coverage": cov,
